@@ -32,6 +32,7 @@ var c15Syms = []litSym{
 	{src: `\'`, dec: "'", class: "esc"}, {src: `\"`, dec: `"`, class: "esc"}, {src: "\\`", dec: "`", class: "esc"}, {src: `\\`, dec: `\`, class: "esc.backslash"}, {src: `\/`, dec: "/", class: "esc.slash"},
 	{src: `\f`, dec: "\f", class: "esc"}, {src: `\n`, dec: "\n", class: "esc"}, {src: `\r`, dec: "\r", class: "esc"}, {src: `\t`, dec: "\t", class: "esc"},
 	{src: "\\" + "u00e9", dec: "\u00e9", class: "esc.unicode"}, {src: "\\" + "u20ac", dec: "\u20ac", class: "esc.unicode"}, {src: "\\" + "u0041", dec: "A", class: "esc.unicode"},
+	{src: "\\" + "u00E9", dec: "\u00e9", class: "esc.unicode.upper"}, {src: "\\" + "u20aC", dec: "\u20ac", class: "esc.unicode.upper"},
 	{src: `\é`, dec: "é", class: "esc.unknown", alt: `\é`}, {src: `\q`, dec: "q", class: "esc.unknown", alt: `\q`},
 }
 
@@ -47,7 +48,7 @@ func c15TemporalTexts() []struct{ kind, text, class string } {
 		add("DateTime", d+"T", "datetime.dateonly")
 	}
 	times := []string{"00", "10", "23", "24", "10:00", "10:59", "10:60", "10:30:00", "10:30:59", "10:30:60", "23:59:59", "24:00:00"}
-	fracs := []string{"", ".0", ".25", ".250", ".2500", ".25000", ".123456", ".999", ".9999"}
+	fracs := []string{"", ".0", ".25", ".250", ".2500", ".25000", ".123456", ".999", ".9999", ".045", ".007", ".000120", ".000001"}
 	offs := []string{"", "Z", "+05:30", "-11:00", "+14:00", "-00:00", "+00:00", "-00:30", "+00:30", "-03:30", "-11:59"}
 	for _, t := range times {
 		for _, f := range fracs {
@@ -226,7 +227,7 @@ func fhirConvOne[To constraints.Integer](r *core.Rec, kind string, v int64) {
 func init() {
 	core.Register(&core.Check{
 		ID:          "C15",
-		Rule:        "six finite sub-spaces enumerated completely: string literals as all sequences of length 0..3/4 over 22 source symbols (every escape, quotes, backslash, non-ASCII, a backslash before a non-escape ASCII and non-ASCII character) against an own escape decoder; temporal literal texts (precision x fraction digits x offset form x boundary fields, valid and calendar-invalid); number/quantity literals; System<->FHIR primitive conversions for every precision enum x time-zone form; FHIR primitive parse/format helpers against google/fhir jsonformat, also with time.Local set to +09:00 and -03:30; integer narrowing for all 11x11 Go integer type pairs (every 8/16-bit value, boundary 32/64-bit values); distinct by construction",
+		Rule:        "six finite sub-spaces enumerated completely: string literals as all sequences of length 0..3/4 over 24 source symbols (every escape, quotes, backslash, non-ASCII, a backslash before a non-escape ASCII and non-ASCII character) against an own escape decoder; temporal literal texts (precision x fraction digits x offset form x boundary fields, valid and calendar-invalid); number/quantity literals; System<->FHIR primitive conversions for every precision enum x time-zone form; FHIR primitive parse/format helpers against google/fhir jsonformat, also with time.Local set to +09:00 and -03:30; integer narrowing for all 11x11 Go integer type pairs (every 8/16-bit value, boundary 32/64-bit values); distinct by construction",
 		Assumptions: []string{"a fraction finer than milliseconds may be cut explicitly (shown by toString) but not changed", "google/fhir jsonformat is the reference FHIR JSON rendering"},
 		Subs: func(tier string) []core.Sub {
 			maxLen := 4
@@ -251,7 +252,7 @@ func init() {
 			temporals := c15TemporalTexts()
 			elems := lib.ElementPool()
 			return []core.Sub{
-				{Name: "string-literals", N: len(seqs), Note: fmt.Sprintf("prefix of <=2 symbols x all continuations up to length %d over 22 symbols", maxLen), Run: func(i int, r *core.Rec) {
+				{Name: "string-literals", N: len(seqs), Note: fmt.Sprintf("prefix of <=2 symbols x all continuations up to length %d over 24 symbols", maxLen), Run: func(i int, r *core.Rec) {
 					prefix := seqs[i]
 					// which symbols are decoded wrongly on their own (used to key multi-symbol failures by their cause)
 					symFails := make([]bool, len(c15Syms))
@@ -307,7 +308,7 @@ func init() {
 						if !ok {
 							// key: which symbol classes occur (sorted), so distinct escape defects get distinct keys
 							var cs []string
-							for _, c := range []string{"esc", "esc.backslash", "esc.slash", "esc.unicode", "esc.unknown", "nonascii", "plain"} {
+							for _, c := range []string{"esc", "esc.backslash", "esc.slash", "esc.unicode", "esc.unicode.upper", "esc.unknown", "nonascii", "plain"} {
 								if classes[c] {
 									cs = append(cs, c)
 								}
